@@ -8,7 +8,7 @@ From Coq Require Import List String ZArith NArith Bool Lia.
 Import ListNotations.
 From DV Require Import Model.Tree Model.Tables Model.Skeleton Model.FragSkel Model.Link Model.Restore
      Proofs.LinkProofs Proofs.LinkPanic Proofs.LinkChunk Proofs.RestoreProofs Proofs.RelocProofs
-     Gen.Universe Gen.DataTbl Gen.FragTbl Gen.RestTbl.
+     Gen.Universe Gen.DataTbl Gen.FragTbl Gen.RestTbl Gen.RestoreSrc.
 Local Open Scope string_scope.
 Local Open Scope list_scope.
 Local Open Scope Z_scope.
@@ -97,6 +97,13 @@ Example C01_nonvacuous :
   sget (l_after (link fs)) 2%N = Some SNewLine.
 Proof. vm_compute. repeat split; reflexivity. Qed.
 
+(* FileRestorer.RestoreFile re-initialises the state the model starts from before every file
+   (lines = [0] in a fresh array, no comments, cursorAtNewLine = 0, base = cursor = Fset.Base()):
+   a reused FileRestorer behaves like a new one. *)
+Theorem C01_restorer_starts_from_init_state : restorefile_starts_from_init_state = true.
+Proof. vm_compute. reflexivity. Qed.
+
+
 Print Assumptions C01_fragments_cover_every_part.
 Print Assumptions C01_restorer_mirrors_decorator.
 Print Assumptions C01_entry_points_differ_only_in_base.
@@ -104,3 +111,4 @@ Print Assumptions C01_every_comment_kept.
 Print Assumptions C01_separator_becomes_spacing.
 Print Assumptions C01_spacing_renders_the_same_breaks.
 Print Assumptions C01_trailing_comment_goes_to_end.
+Print Assumptions C01_restorer_starts_from_init_state.
